@@ -9,6 +9,18 @@ lifespan application (startup.complete is sent only after it), connection attemp
 the ticks.  A second family checks state isolation with two connections whose applications mutate
 scope["state"].
 
+Variants (5th element of the parameters) move along two further axes, on a leaner client activity
+(the request while serving, gated, the trigger and the ticks; for the startup axis also the early
+connection attempt):
+  timeout values   graceful_timeout = 0, shutdown_timeout = 0, both, startup_timeout = 0 and 0.5: a timeout of 0
+                   has elapsed at the instant it starts (requests still in progress at the trigger are cancelled in
+                   that instant, lifespan.shutdown is delivered once, worker_serve returns by t0 + graceful + shutdown;
+                   a startup that has not completed at t = 0 fails with the timeout error)
+  program shape    the lifespan application runs inside 1, 2 or 3 nested task groups / nurseries: what it raises
+                   (the error of sending startup.failed, a plain crash, both from sibling tasks, shutdown.failed)
+                   reaches the server wrapped in ExceptionGroups of that depth.  startup.failed aborts at any depth;
+                   a crash at any depth is "lifespan unsupported".
+
 Oracle (reference lifespan automaton; a logical clock orders events inside one virtual instant)
   served-before-startup     an http/websocket application instance was created before lifespan.startup
                             was delivered, or before startup.complete / the application's failure to support lifespan
@@ -28,22 +40,36 @@ from __future__ import annotations
 from typing import Any, List
 
 from mc.clients import h1_request, make_client
+from mc.core import AppCrash, ScriptApp
 from mc.explore import V
 from mc.harness import internal_errors, std_execute
 
 ID = "C14"
 LEVEL = "model_checking"
 TECHNIQUE = ("stateless deviation-bounded exploration of lifespan scripts x connection attempts x trigger x timers on "
-             "the real worker_serve()/Lifespan (asyncio and trio) under virtual time; reference lifespan automaton")
-RULE = ("scenario = engine x startup script x shutdown script x client activity; lifespan gate, connects, trigger and "
+             "the real worker_serve()/Lifespan (asyncio and trio) under virtual time; reference lifespan automaton; the "
+             "timeouts also at their boundary 0 and the lifespan application also inside nested task groups (its errors "
+             "reach the server wrapped in exception groups of depth 1-3)")
+RULE = ("scenario = engine x startup script x shutdown script x client activity [x variant: timeout values | nesting depth]; lifespan gate, connects, trigger and "
         "ticks interleaved within (M,S); non-trivial = instance ran and non-default choice taken; distinct by digest")
 ASSUMPTIONS = [
     "an application that returns from the lifespan scope without completing startup is outside the property: only "
     "safety (no crash, nothing served before it returned) is checked on that branch",
     "connection attempts before the listener accepts are refused (asyncio: not listening) or queued (trio: the master "
     "process already listens); either is fine as long as nothing is served before startup completed",
+    "a timeout of 0 has elapsed when it starts: graceful_timeout = 0 cancels what is in progress at the trigger instant, "
+    "startup_timeout / shutdown_timeout = 0 may fail a lifespan application that would have answered in the same "
+    "instant (either outcome is accepted; a failed startup must still serve nothing, worker_serve must still return)",
+    "nested task groups are modelled by an ASGI wrapper (props/c14.py Nested) that re-raises what the scripted lifespan "
+    "application raised inside ExceptionGroups of the given depth, optionally next to a crashed sibling; real nested "
+    "nurseries would add scheduling points but deliver the same exception tree",
+    "whether lifespan.shutdown.failed makes worker_serve raise is not demanded (only that nothing but the documented "
+    "lifespan errors - bare or as the leaves of a group - ever leaves worker_serve)",
 ]
-BOUNDS_DOC = {"quick": "M=0, S<=2", "thorough": "M<=1, S<=3, trio R<=1"}
+BOUNDS_DOC = {"quick": "M=0, S<=2; 12 startup x 7 shutdown scripts at startup/shutdown/graceful timeouts 7/2/3, plus %d "
+                       "variant scenarios per engine: graceful_timeout 0, shutdown_timeout 0, both 0, startup_timeout 0 / 0.5, "
+                       "and lifespan failures / crashes wrapped in exception groups of depth 1-3",
+              "thorough": "M<=1, S<=3, trio R<=1; the same scripts, every shutdown script under every zero-timeout variant"}
 BUDGET = {"quick": 300, "thorough": 1800}
 
 START_T, SHUT_T, GRACE = 7.0, 2.0, 3.0
@@ -79,6 +105,78 @@ OK = [("recv_body",), ("send", {"type": "http.response.start", "status": 200, "h
       ("send", {"type": "http.response.body", "body": b"ok", "more_body": False})]
 SERVES = ("complete", "gated")  # startups after which the server is expected to serve with lifespan support
 
+# ---- variants (5th element of the parameters): (config overrides, nesting depth of the lifespan application, a sibling
+# task crashing in the outermost group as well?, sources of client activity kept)
+_T_SRC = ("life", "during", "ctl", "app", "clock")
+_K_SRC = ("life", "during", "ctl", "clock")  # the request while serving is never released: it does not finish by itself
+_S_SRC = ("early", "life", "during", "ctl", "app", "clock")
+VARIANTS = {
+    "g0": ({"graceful_timeout": 0}, 0, False, _T_SRC),
+    "g0-stuck": ({"graceful_timeout": 0}, 0, False, _K_SRC),
+    "s0": ({"shutdown_timeout": 0}, 0, False, _T_SRC),
+    "g0s0": ({"graceful_timeout": 0, "shutdown_timeout": 0}, 0, False, _T_SRC),
+    "g0s0-stuck": ({"graceful_timeout": 0, "shutdown_timeout": 0}, 0, False, _K_SRC),
+    "st0": ({"startup_timeout": 0}, 0, False, _S_SRC),
+    "st.5": ({"startup_timeout": 0.5}, 0, False, _S_SRC),
+    "nest1": ({}, 1, False, _S_SRC),
+    "nest2": ({}, 2, False, _S_SRC),
+    "nest3": ({}, 3, False, _S_SRC),
+    "nest2sib": ({}, 2, True, _S_SRC),
+    "nest3sib": ({}, 3, True, _S_SRC),
+}
+# (startup script, shutdown script, variant) in both tiers / in the thorough tier only
+VARIANT_SCENARIOS = (
+    [("complete", sd, v) for v in ("g0", "g0-stuck", "s0", "g0s0", "g0s0-stuck") for sd in ("complete", "hang")] +
+    [(su, "complete", "st0") for su in ("hang", "complete", "gated")] +
+    [("hang", "complete", "st.5")] +
+    [("failed", "complete", v) for v in ("nest1", "nest2", "nest3", "nest2sib", "nest3sib")] +
+    [("failed_nomsg", "complete", "nest2"), ("failed_unwind", "complete", "nest3")] +
+    [("raise_after_recv", "complete", v) for v in ("nest1", "nest2", "nest3")] +
+    [("complete", "failed", "nest2")]
+)
+VARIANT_SCENARIOS_THOROUGH = (
+    [("gated", "complete", "st.5"), ("complete", "complete", "st.5")] +
+    [(su, sd, v) for v in ("g0", "g0-stuck", "s0", "g0s0", "g0s0-stuck") for su in SERVES for sd in SHUTDOWNS if (su, sd, v) not in VARIANT_SCENARIOS] +
+    [(su, "complete", v) for su in ("failed_nomsg", "failed_unwind", "raise_after_recv", "raise_before", "unknown_msg")
+     for v in ("nest1", "nest2", "nest3", "nest2sib") if (su, "complete", v) not in VARIANT_SCENARIOS] +
+    [("complete", sd, v) for sd in ("failed", "failed_unwind", "raise") for v in ("nest1", "nest2", "nest3")
+     if ("complete", sd, v) not in VARIANT_SCENARIOS]
+)
+BOUNDS_DOC["quick"] %= len(VARIANT_SCENARIOS)
+
+
+class Nested:
+    """The scripted application as a framework runs it that keeps the lifespan handler inside `depth` nested task
+    groups / nurseries: whatever the handler raises reaches the server wrapped in that many ExceptionGroups (with
+    `sibling`, another task of the outermost group has crashed as well).  Cancellation passes through untouched."""
+
+    def __init__(self, inner: Any, depth: int, sibling: bool) -> None:
+        self.inner, self.depth, self.sibling = inner, depth, sibling
+
+    async def __call__(self, scope: dict, receive: Any, send: Any) -> None:
+        if scope["type"] != "lifespan":
+            return await self.inner(scope, receive, send)
+        try:
+            await self.inner(scope, receive, send)
+        except Exception as error:
+            wrapped: Exception = error
+            for level in range(self.depth, 0, -1):
+                members = [wrapped]
+                if self.sibling and level == 1:
+                    members = [AppCrash(), wrapped]
+                wrapped = ExceptionGroup(f"task group at level {level}", members)
+            raise wrapped
+
+
+def _leaves(error: BaseException) -> List[str]:
+    if isinstance(error, BaseExceptionGroup):
+        return [name for sub in error.exceptions for name in _leaves(sub)]
+    return [type(error).__name__]
+
+
+def _variant(params: Any) -> tuple:
+    return VARIANTS[params[4]] if len(params) > 4 else ({}, 0, False, None)
+
 
 def scenarios(tier: str) -> List[Any]:
     out = []
@@ -88,6 +186,8 @@ def scenarios(tier: str) -> List[Any]:
             for sd in sds:
                 out.append((engine, "life", su, sd))
         out.append((engine, "state", "complete", "complete"))
+        for su, sd, v in VARIANT_SCENARIOS + (VARIANT_SCENARIOS_THOROUGH if tier != "quick" else []):
+            out.append((engine, "life", su, sd, v))
     return out
 
 
@@ -98,9 +198,11 @@ def bounds(tier: str, params: Any) -> dict:
 
 
 def build(params: Any) -> tuple:
-    engine, fam, su, sd = params
+    engine, fam, su, sd = params[:4]
+    cfg_extra, depth, sibling, keep = _variant(params)
     life = STARTUPS[su] + (SHUTDOWNS[sd] if su in SERVES else [])
-    cfg = {"keep_alive_timeout": 50, "graceful_timeout": GRACE, "shutdown_timeout": SHUT_T, "startup_timeout": START_T}
+    cfg = {"keep_alive_timeout": 50, "graceful_timeout": GRACE, "shutdown_timeout": SHUT_T, "startup_timeout": START_T,
+           **cfg_extra}
     if fam == "state":
         apps = {"lifespan": life,
                 "http:/a": [("recv_body",), ("log_state",), ("set_state", "x", "from-a"), ("gate", "ga"), ("log_state",)] + OK[1:],
@@ -123,6 +225,8 @@ def build(params: Any) -> tuple:
             ("late", [("after_shutdown",), ("connect", 2, {"carrier": "h1", "methods": [b"GET"]}), ("data", 2, h1_request(b"GET", b"/late"))]),
             ("clock", [("tick",)] * 4),
         ]
+        if keep is not None:
+            sources = [src for src in sources if src[0] in keep]
     guards = {
         "started": lambda w, ev=None: any(l[2].startswith("Running on") for l in w.logrec),
         "after_shutdown": lambda w, ev=None: w.shutdown_at is not None,
@@ -130,13 +234,24 @@ def build(params: Any) -> tuple:
     }
     sc = {"level": "serve", "client_factory": make_client, "apps": apps, "config": cfg, "sources": sources,
           "trio_rev": True, "guards": guards}
+    if depth:
+        sc["app_factory"] = lambda world: _asgi(Nested(ScriptApp(world, apps), depth, sibling))
     return engine, sc
 
 
+def _asgi(app: Any) -> Any:
+    from hypercorn.app_wrappers import ASGIWrapper
+
+    return ASGIWrapper(app)
+
+
 def oracle(w: Any, params: Any) -> List[dict]:
-    engine, fam, su, sd = params
+    engine, fam, su, sd = params[:4]
     out: List[dict] = []
-    tag = f"{su}:{sd}"
+    tag = f"{su}:{sd}" + (f":{params[4]}" if len(params) > 4 else "")
+    # the timeouts of THIS scenario (a timeout of 0 has elapsed at the instant it starts)
+    cfg = w.scenario["config"]
+    start_t, shut_t, grace = cfg["startup_timeout"], cfg["shutdown_timeout"], cfg["graceful_timeout"]
     life = next((i for i in w.instances if i.type == "lifespan"), None)
     reqs = [i for i in w.instances if i.type in ("http", "websocket")]
     if life is None:
@@ -175,7 +290,7 @@ def oracle(w: Any, params: Any) -> List[dict]:
         if su == "hang":
             if w.serve_result is None and ticks_left:
                 out.append(V("startup-hang", tag, f"now {w.final_time}: no timer armed and worker_serve still waiting for startup"))
-            if w.serve_result is not None and (not w.serve_result.startswith("exc:") or abs(w.serve_done_at - START_T) > 1e-9):
+            if w.serve_result is not None and (not w.serve_result.startswith("exc:") or abs(w.serve_done_at - start_t) > 1e-9):
                 out.append(V("startup-failure-ignored", f"{tag}:timeout", f"worker_serve: {w.serve_result} at {w.serve_done_at}"))
             if reqs:
                 out.append(V("startup-failure-ignored", f"{tag}:served", "a request scope was created although startup never completed"))
@@ -185,6 +300,11 @@ def oracle(w: Any, params: Any) -> List[dict]:
     if w.serve_result is not None and w.serve_result.startswith("exc:"):
         kind = w.serve_result.split(":")[1]
         names = set(kind[kind.index("[") + 1:-1].split(",")) if "[" in kind else {kind}
+        task = getattr(w, "serve_task", None)  # (the asyncio engine records the group's own name only: name its leaves)
+        if "[" not in kind and task is not None and task.done() and not task.cancelled() \
+                and isinstance(task.exception(), BaseExceptionGroup):
+            names = set(_leaves(task.exception()))
+            kind += "[" + ",".join(sorted(names)) + "]"
         if not names <= {"LifespanFailureError", "LifespanTimeoutError"}:
             out.append(V("serve-crashed", f"{tag}:{kind}", f"worker_serve raised {w.serve_result}"))
     # --- shutdown
@@ -195,7 +315,7 @@ def oracle(w: Any, params: Any) -> List[dict]:
         if n > 1 or (n == 0 and settled):
             out.append(V("shutdown-count", f"{tag}:{n}", f"{n} lifespan.shutdown messages; worker_serve {w.serve_result}"))
         for (t, what, m) in life.log:
-            if what == "recv" and m["type"] == "lifespan.shutdown" and t < t0 + GRACE - 1e-9:
+            if what == "recv" and m["type"] == "lifespan.shutdown" and t < t0 + grace - 1e-9:
                 # connections accepted before the trigger whose handler had not finished by the instant of the
                 # delivery (a strictly later completion, or none at all; same-instant order is not judged)
                 busy = [k for k, rec in w.conns.items() if not rec.refused and rec.opened_at <= t0 and
@@ -207,7 +327,7 @@ def oracle(w: Any, params: Any) -> List[dict]:
         # the same by the logical clock (orders events inside one virtual instant): a request instance that was
         # running when lifespan.shutdown was delivered and only ended afterwards, inside the grace period
         for m, sq, (t, what, _) in zip(life.received, life.recv_seq, [l for l in life.log if l[1] == "recv"]):
-            if m["type"] != "lifespan.shutdown" or t >= t0 + GRACE - 1e-9:
+            if m["type"] != "lifespan.shutdown" or t >= t0 + grace - 1e-9:
                 continue
             over = [i.scope.get("path") for i in reqs if i.seq_start < sq and (i.seq_end is None or i.seq_end > sq)
                     and i.outcome != "running"]
@@ -216,13 +336,13 @@ def oracle(w: Any, params: Any) -> List[dict]:
                              f"lifespan.shutdown delivered at {t} (t0={t0}) before request(s) {over} had finished"))
         # connections are given until the graceful timeout: a request in progress at the trigger is not cancelled earlier
         for i in reqs:
-            if i.outcome == "cancelled" and i.t_end is not None and i.t_end < t0 + GRACE - 1e-9 and i.t_start <= t0 \
+            if i.outcome == "cancelled" and i.t_end is not None and i.t_end < t0 + grace - 1e-9 and i.t_start <= t0 \
                     and not any(r.client_reset or r.client_eof or r.lost_at is not None for r in w.conns.values()):
                 out.append(V("shutdown-early", f"{tag}:request-cancelled-before-grace",
-                             f"request {i.scope.get('path')} cancelled at {i.t_end}, trigger at {t0}, graceful_timeout {GRACE}"))
+                             f"request {i.scope.get('path')} cancelled at {i.t_end}, trigger at {t0}, graceful_timeout {grace}"))
         if w.serve_result is None and ticks_left and fam == "life":
             out.append(V("shutdown-hang", tag, f"now {w.final_time}, t0={t0}: no timer armed and worker_serve has not returned"))
-        if w.serve_result is not None and w.serve_done_at > t0 + GRACE + SHUT_T + 1e-9:
+        if w.serve_result is not None and w.serve_done_at > t0 + grace + shut_t + 1e-9:
             out.append(V("shutdown-hang", f"{tag}:late", f"worker_serve returned at {w.serve_done_at}, t0={t0}"))
     # --- state isolation
     if fam == "state":
